@@ -74,6 +74,14 @@ def run_case(cs):
             cs.skip("seal-internal-error")
             return
     hists = world.find_histories(root)
+    if hists == ["."] and rng.random() < 0.1:
+        try:
+            hist.renumber_flat_history(root, 9998 - len(world.manifests(root)) + rng.randint(0, 1))
+            for _ in range(rng.randint(2, 3)):
+                drive.run("create", [root, "-h", "md5"])
+            cs.count("histories_crossing_9999")
+        except RuntimeError:
+            pass
     model = {}
     for h in hists:
         ms, _ = hist.load_history(root, h)
